@@ -18,7 +18,7 @@ WOPTS = ["--no-show-locs", "--no-parameter-names", "--no-corpus-path", "--load-a
 
 
 def plan(tier):
-    return {"n": 150 if tier == "quick" else 2000, "floor": 30 if tier == "quick" else 400}
+    return {"n": 150 if tier == "quick" else 600, "floor": 30 if tier == "quick" else 120}
 
 
 def rule(tier):
